@@ -3,7 +3,7 @@
 PROP = {'areas': [{'area': 'c02',
             'corpus': ['corpus/C02/d3_subscribe_subid.txt', 'corpus/C02/boundaries.txt', 'corpus/C02/trailing_empty.txt', 'corpus/C02/d28_nul_in_string.txt'],
             'quick': 20000,
-            'thorough': 1000000},
+            'thorough': 2000000},
            {'area': 'engine',
             'corpus': ['corpus/engine/d25_connect311_empty_client_id.script',
                        'corpus/engine/d27_assigned_client_id_nul.script',
@@ -11,7 +11,7 @@ PROP = {'areas': [{'area': 'c02',
             'extra': ['100'],
             'only_prop': 'C02',
             'quick': 3000,
-            'thorough': 1000000,
+            'thorough': 2000000,
             'tie_fields': ['out']}],
  'coq_target': 'Properties/C02.vo',
  'modelled': 'encode.rs Encoder::reset / Encoder::encode / process_encoding_step / encode_vli / compute_variable_length_integer_encode_size and all length / '
